@@ -8,7 +8,7 @@ LEVEL = "exploration"
 ENGINE = "E2 detgrid"
 TECHNIQUE = ("Hypothesis-generated directory graphs (adjacency draws over real SDMF/MDMF directories: trees, DAGs with shared subdirectories, cycles and self-links; the same "
              "object linked by write cap and by read cap; literal, CHK and mutable file caps; unknown caps) on the in-process grid; reference = own breadth-first search over "
-             "the link structure; oracles for build_manifest, start_deep_stats and start_deep_check")
+             "the link structure; oracles for build_manifest, start_deep_stats and start_deep_check, run one after the other and overlapping")
 RULE = ("each case: 1-6 (quick) / up to 12 (thorough) real directories and up to 40 links; each link is (parent directory, name, target directory or file, via write cap or read "
         "cap); file targets come from a small pool so that the same file is linked several times. Oracle: the set of verify caps in the manifest equals the set reachable from "
         "the root (own BFS, root included); every object that has a verify cap appears exactly once in the manifest; literal files and unknown caps (no verify cap) appear "
